@@ -34,7 +34,7 @@ func ZZ_C01_Keys() {
 	wait := 0
 	script.OnWait = func() {
 		if wait == 0 {
-			rl.line.Set(buf...)
+			rl.line.Set(zzCopy(buf)...)
 			rl.cursor.Set(zzverif.IntRange("pos", 0, n))
 			if mode != keymap.Emacs {
 				rl.Keymap.SetMain(mode)
